@@ -51,6 +51,7 @@ def check(ctx):
     # O3: purity
     globs = [s for s in ast.walk(node) if isinstance(s, (ast.Global, ast.Nonlocal))]
     ctx.require(not globs, "C20.O3", "no global/nonlocal declaration in crc7", "crc7 declares global state: its result can depend on earlier calls", site=(site[0], globs[0].lineno, site[2]) if globs else site, key="C20.O3|global")
+    history_after_failed_call(ctx, f, site)
     plain = ok_shape and isinstance(top_loops[0].iter, ast.Name) and top_loops[0].iter.id == data and not top_loops[0].orelse and not [s for s in ast.walk(top_loops[0]) if isinstance(s, (ast.Break, ast.Continue, ast.Return))]
     if globs:
         return
@@ -172,6 +173,32 @@ def _subst(v, mapping):
             return App("xor", tuple(sorted(args, key=lambda t: repr(vkey(t)))))
         return App(v.op, tuple(args))
     return v
+
+
+def history_after_failed_call(ctx, f, site):
+    """C20.O3: a call that fails part-way (an element that is not a byte) must leave nothing behind that a later call reads"""
+    from ..interp import AbsRaise
+    from ..values import vkey
+
+    b0, b1 = Sym("byte0", "num", uid=0), Sym("byte1", "num", uid=0)
+    ref_it = Interp(ctx.program)
+    ref = ref_it.call(f, [ListV([b1])], {})
+    it = Interp(ctx.program)
+    failed = False
+    try:
+        it.call(f, [ListV([b0, "not a byte"])], {})
+    except AbsRaise:
+        failed = True
+    except Exception:
+        return  # the message form is not interpretable here: the other O3 rules still apply
+    if not failed:
+        return
+    try:
+        again = it.call(f, [ListV([b1])], {})
+    except AbsRaise as ar:
+        ctx.fail("C20.O3", f"after a crc7() call that raised (a non-byte element), the next crc7() call raises {fn.exc_name(ar)}", site=site, key="C20.O3|after-fail|raise")
+        return
+    ctx.require(vkey(again) == vkey(ref), "C20.O3", "a failed call leaves nothing behind: the next result is that of a fresh interpreter", f"after a crc7() call that raised part-way (a non-byte element), crc7([b]) = {again!r} instead of {ref!r}: the running checksum of the failed call is still in shared state", site=site, key="C20.O3|after-fail")
 
 
 def unrolled(ctx, f, site):
